@@ -190,6 +190,18 @@ class Explorer:
         # unknown after such a definition and learnt again on the edges of a switch over them
         if extra_flags:
             allflags = set(allflags) | set(extra_flags)
+            # .. and the temporaries that merely copy them (`_t = copy flag; switchInt(move _t)`)
+            changed = True
+            while changed:
+                changed = False
+                for i, l in enumerate(self.body.locals):
+                    if l['t'] != 'bool' or i in allflags or i <= self.body.arg_count:
+                        continue
+                    ds = cfg.defs.get(i, [])
+                    if ds and all(si != 'call' and d.rv['k'] == 'use' and Operand(d.rv['o']).place is not None and Operand(d.rv['o']).place.is_local
+                                  and not Operand(d.rv['o']).place.p and Operand(d.rv['o']).place.l in allflags for (bi, si, d) in ds):
+                        allflags.add(i)
+                        changed = True
         self.sw = analyse_switches(cfg, allflags)
         # only flags that (transitively through copies) reach a switch matter
         used = set(i.flag for i in self.sw.values() if i.flag is not None)
